@@ -20,6 +20,13 @@ theorem list_sum_map_range (f : ℕ → ℝ) (n : ℕ) :
   | zero => simp
   | succ n ih => rw [List.sum_range_succ, Finset.sum_range_succ, ih]
 
+/-- the generated accumulation loop is the finite sum -/
+theorem gsum_eq (m : ℕ) (f : ℕ → ℝ) : Gen.OneD.gsum m f = ∑ j ∈ Finset.range m, f j := by
+  unfold Gen.OneD.gsum
+  induction m with
+  | zero => simp
+  | succ m ih => rw [List.range_succ, List.foldl_append, ih, Finset.sum_range_succ]; simp
+
 theorem mapIdx_map_range {α β} (g : ℕ → α) (f : ℕ → α → β) (n : ℕ) :
     ((List.range n).map g).mapIdx f = (List.range n).map (fun i => f i (g i)) := by
   apply List.ext_getElem
